@@ -233,4 +233,34 @@ def run_exc_history(case):
         cleanup()
 
 
-KINDS = {"xproc": run_xproc, "nested": run_nested, "exc_history": run_exc_history}
+# ---- shared (round 7) --------------------------------------------------------------------------------------------------------------
+def to_py_sharing(j, bound=None):
+    """pyval literal with ONE internally shared node: {"t": "let", "x": <literal>, "in": <literal with {"t": "ref"} leaves>} builds x
+    once and puts that very object at every ref (lists / tuples / dicts around it are walked; anything else goes to to_py)."""
+    t = j.get("t")
+    if t == "let":
+        return to_py_sharing(j["in"], to_py_sharing(j["x"]))
+    if t == "ref":
+        return bound
+    if t == "list":
+        return [to_py_sharing(x, bound) for x in j["v"]]
+    if t == "tuple":
+        return tuple(to_py_sharing(x, bound) for x in j["v"])
+    if t == "dict":
+        return {k: to_py_sharing(v, bound) for k, v in j["v"]}
+    return to_py(j)
+
+
+def run_shared(case):
+    """kind "shared" (C01): the mutation probe of recorder_driver (hand-written operation working in place on what an input
+    returned) with input values in which one plain list / dict is reachable TWICE (two entries sharing a row, [x, x])."""
+    rdrv = _rdrv()
+    old = rdrv.to_py
+    rdrv.to_py = lambda j: to_py_sharing(j) if isinstance(j, dict) else old(j)
+    try:
+        return rdrv.run_mutation_probe(case)
+    finally:
+        rdrv.to_py = old
+
+
+KINDS = {"xproc": run_xproc, "nested": run_nested, "exc_history": run_exc_history, "shared": run_shared}
